@@ -7,12 +7,13 @@ def run(bindir, pid):
     exe = os.path.join(bindir, "factcheck")
     if not os.path.exists(exe):
         return dict(problems=[], summary="factcheck not built")
-    r = subprocess.run([exe, vlib.REPO], stdout=subprocess.PIPE, stderr=subprocess.PIPE, text=True)
+    r = subprocess.run([exe, vlib.REPO, os.path.join(vlib.VERIF, "harness", "factcheck_expected.json")],
+                       stdout=subprocess.PIPE, stderr=subprocess.PIPE, text=True)
     if r.returncode not in (0, 1):
         return dict(problems=["factcheck failed to run: " + r.stderr[-500:]], summary=None)
     try:
         out = json.loads(r.stdout)
     except Exception as e:
         return dict(problems=["factcheck output unreadable: " + r.stdout[-300:]], summary=None)
-    probs = [p["msg"] for p in out.get("problems", []) if pid in p.get("props", [])]
+    probs = [p["msg"] for p in (out.get("problems") or []) if pid in p.get("props", [])]
     return dict(problems=probs, summary=out.get("summary"))
